@@ -297,6 +297,24 @@ PROPS = {
                         'expect:inconclusive:certificate-not-listed', 'expect:never-ok(internal)', 'extender-contacted', 'publications-file-downloaded', 'extender:error-status-with-chain'],
   'assumptions': ['the extender is reached only through the simulated transports', 'only the generated inputs are covered'],
  },
+ 'C19': {
+  'technique': 'fault enumeration: every allocation index of every operation in a catalogue is made to fail (single fault, and all allocations from that index on) through the SDK\'s allocation funnel, under ASan/UBSan with live-allocation accounting; rapidcheck adds random fault pairs',
+  'level_text': 'A catalogue of operations covering context handling, signature parse / verify (internal, user publication) / serialize / clone / identity / getters, TLV parse-clone-serialize and construction, '
+                'TLV elements, list append and reuse, aggregation / extension PDU parsing, publications file parse and lookups, publication strings, hashing and HMAC, synchronous signing over TCP and HTTP, '
+                'extending to a time and to a publication, tree builder, block signer, asynchronous signing and high-availability signing is run against reference servers behind the simulated transports. '
+                'For every operation the number N of allocation attempts is measured and each index 1..N+1 is failed (once as a single fault, once as "this and every later allocation fails"); random pairs of '
+                'faults are generated on top. Each faulted call must return an error or the fault-free result; repeating the call on the same context and objects without a fault must give the fault-free result; '
+                'after freeing everything the number of live SDK allocations must be back at its start value; ASan/UBSan report crashes, double frees and use after free.',
+  'level_note': 'Exhaustive over single faults and exhaustion-from-n for the catalogue operations (strided when N exceeds the per-operation cap); sampling for pairs. Allocations made by OpenSSL, libc and the simulators '
+                'are not failed (they do not go through the SDK funnel). Leaks are judged at the point where the context has been freed, so caches owned by the context are not reported.',
+  'rule': 'inputs: (operation, fault mode, allocation index n [, distance to the second fault]). Non-trivial = the injected failure actually happened during the call; distinct = distinct (operation, mode, n, n2).',
+  'quick': {'cases': 16000, 'max_size': 100, 'exhaustive': True, 'wall_s': 900},
+  'thorough': {'cases': 400000, 'max_size': 100, 'exhaustive': True, 'wall_s': 3400},
+  'sim': ['simsock', 'fakecurl', 'simclock'],
+  'leaks': True,
+  'essential_classes': ['fault:error-returned', 'fault:not-reached', 'op:signature-parse', 'op:sign-tcp', 'op:sign-http', 'op:extend-to-time', 'op:tree-builder', 'op:block-signer', 'op:async-sign', 'op:ha-sign', 'op:list-append-and-reuse', 'op:tlv-parse-nested-clone-serialize'],
+  'assumptions': ['only allocations routed through KSI_malloc/KSI_calloc are failed', 'only the catalogue operations are covered'],
+ },
 }
 
 # properties without a check, with the reason (kept current)
